@@ -271,6 +271,10 @@ impl<T: Socket + ?Sized> Worker<T> {
         for i in 0..self.repeat_amount {
             if i > 0 {
                 std::thread::sleep(DEFAULT_DUPLICATE_DELAY);
+                // Extra copies are best effort: a peer that is done after the first
+                // copy may already have closed its socket (ECONNREFUSED).
+                let _ = self.socket.send(packet);
+                continue;
             }
             self.socket.send(packet)?;
         }
